@@ -29,7 +29,7 @@ theorem napiTrigger_busy (cfg : NCfg) (sub : NSub) (sc : Script) (qmax ev : Nat)
     (hq : cfg.queued = true) (hb : s.queue ≠ []) :
     napiTrigger sub sc cfg qmax ev s = .ok true (busyTrigger ev s) := by
   cases s with
-  | mk conf queue counts nextTag result log glog =>
+  | mk conf queue counts nextTag result exited log glog =>
     cases queue with
     | nil => exact absurd rfl hb
     | cons a l =>
@@ -292,7 +292,8 @@ theorem nchangeState_busy (H : Hyp cfg sub sc R) (scope : Scope) (x : Ctx) (dest
     · intro e' s' h; cases h; exact resolveTransition_errE _ _ _ _ e he
   · exact ⟨by intro s' h; simp [Res.state?] at h, by intro e s' h; cases h⟩
   · rename_i r hr
-    obtain ⟨s1, h1, _, q1, _⟩ := exitAll_busy cfg sub sc H.hR H.hT H.hsub x r.exits s hb
+    obtain ⟨s1, h1, _, q1, _⟩ := exitAll_busy cfg sub sc H.hR H.hT H.hsub x r.exits
+      { s with exited := s.exited ++ r.exitNames } hb
     obtain ⟨s2, h2, _, q2, _⟩ := enterAll_busy cfg sub sc H.hR H.hT H.hsub x r.enters { s1 with conf := r.tree } q1
     simp only [h1, Res.bind, h2]
     exact ⟨by intro s' h; simp only [Res.state?, Option.some.injEq] at h; subst h; exact q2,
@@ -405,16 +406,19 @@ theorem triggerNested_presQ (H : Hyp cfg sub sc R) (scope : Scope) (x : Ctx) (ev
     · exact Pres.oof
     · refine Pres.bind (tnLoop_presQ H scope x ev ts hw _ _ s hb) ?_
       intro _ s1 _ f1 b1
-      exact Pres.ok f1 b1
+      split
+      · exact Pres.ok f1 b1
+      · exact Pres.ok (s := { s1 with result := some true }) f1 b1
 
 theorem ten_presQ (H : Hyp cfg sub sc R) (x : Ctx) (ev : Nat) :
-    ∀ (tree : Forest) (scope : Scope) (res : List (Nat × Bool)) (s : NSt),
-    cfg.root.walkTo scope.pre = some scope → Busy s → Pres R Busy (ten sub sc cfg x ev scope tree res s) s.view := by
+    ∀ (tree : Forest) (scope : Scope) (res : List (Nat × Bool)) (offered : Bool) (s : NSt),
+    cfg.root.walkTo scope.pre = some scope → Busy s →
+    Pres R Busy (ten sub sc cfg x ev scope tree res offered s) s.view := by
   intro tree
   induction tree with
-  | nil => intro scope res s _ hb; unfold ten; exact Pres.ok (H.hcl.refl _) hb
+  | nil => intro scope res offered s _ hb; unfold ten; exact Pres.ok (H.hcl.refl _) hb
   | cons key value rest ihv ihr =>
-    intro scope res s hw hb
+    intro scope res offered s hw hb
     unfold ten
     refine Pres.bind ?_ ?_
     · split
@@ -422,20 +426,18 @@ theorem ten_presQ (H : Hyp cfg sub sc R) (x : Ctx) (ev : Nat) :
       · split
         · exact Pres.err (H.hcl.refl _) hb rfl
         · rename_i inner he
-          refine Pres.bind (ihv inner [] s (Scope.walkTo_enter hw he) hb) ?_
+          refine Pres.bind (ihv inner [] false s (Scope.walkTo_enter hw he) hb) ?_
           intro _ s1 _ f1 b1
           exact Pres.ok f1 b1
     · intro res1 s1 _ f1 b1
-      refine Pres.weaken H.hcl f1 (Pres.bind ?_ ?_)
+      refine Pres.weaken H.hcl f1 ?_
+      split
       · split
-        · split
-          · refine Pres.bind (triggerNested_presQ H scope x ev _ hw s1 b1) ?_
-            intro _ s2 _ f2 b2
-            exact Pres.ok f2 b2
-          · exact Pres.ok (H.hcl.refl _) b1
-        · exact Pres.ok (H.hcl.refl _) b1
-      · intro res2 s2 _ f2 b2
-        exact Pres.weaken H.hcl f2 (ihr scope res2 s2 hw b2)
+        · refine Pres.bind (triggerNested_presQ H scope x ev _ hw s1 b1) ?_
+          intro _ s2 _ f2 b2
+          exact Pres.weaken H.hcl f2 (ihr scope _ true s2 hw b2)
+        · exact ihr scope res1 offered s1 hw b1
+      · exact ihr scope res1 offered s1 hw b1
 
 theorem checkEventResult_presQ (hcl : ClosedQ cfg sc R) (res : Option Bool) (ev : Nat) (s : NSt) (hb : Busy s) :
     Pres R Busy (checkEventResult cfg res ev s) s.view := by
@@ -451,7 +453,7 @@ theorem checkEventResult_presQ (hcl : ClosedQ cfg sc R) (res : Option Bool) (ev 
 theorem triggerEventBody_presQ (H : Hyp cfg sub sc R) (x : Ctx) (ev : Nat) (s : NSt) (hb : Busy s) :
     Pres R Busy (triggerEventBody sub sc cfg x ev s) s.view := by
   unfold triggerEventBody
-  refine Pres.bind (ten_presQ H x ev s.conf cfg.root [] s (NCfg.walkTo_root cfg) hb) ?_
+  refine Pres.bind (ten_presQ H x ev s.conf cfg.root [] false s (NCfg.walkTo_root cfg) hb) ?_
   intro r s1 _ f1 b1
   refine Pres.weaken H.hcl f1 (Pres.bind (checkEventResult_presQ H.hcl _ ev s1 b1) ?_)
   intro b s2 _ f2 b2
@@ -522,8 +524,8 @@ theorem finallyClause_presQ (H : Hyp cfg sub sc R) (x : Ctx) (r1 : NR Bool) (v :
 
 theorem ntriggerEvent_presQ (H : Hyp cfg sub sc R) (x : Ctx) (ev : Nat) (s : NSt) (hb : Busy s) :
     Pres R Busy (ntriggerEvent sub sc cfg x ev s) s.view := by
-  have hbody : Pres R Busy (triggerEventBody sub sc cfg x ev { s with result := none }) s.view :=
-    triggerEventBody_presQ H x ev { s with result := none } hb
+  have hbody : Pres R Busy (triggerEventBody sub sc cfg x ev { s with result := none, exited := [] }) s.view :=
+    triggerEventBody_presQ H x ev { s with result := none, exited := [] } hb
   unfold ntriggerEvent
   exact finallyClause_presQ H x _ _ (exceptClause_presQ H x _ _ hbody)
 
@@ -665,7 +667,7 @@ theorem nchangeState_ref (h : SubRef sub1 sub2) (scope : Scope) (x : Ctx) (dest 
   cases resolveTransition cfg.root scope s.conf dest with
   | err e => exact Ref.rfl
   | oof => exact Ref.rfl
-  | ok r => exact Ref.bind (exitAll_ref h x _ s) (fun _ s1 => enterAll_ref h x _ _)
+  | ok r => exact Ref.bind (exitAll_ref h x _ _) (fun _ s1 => enterAll_ref h x _ _)
 
 theorem nexecute_ref (h : SubRef sub1 sub2) (scope : Scope) (x : Ctx) (tr : TRef) (t : NTrans) (s : NSt) :
     Ref (nexecute sub1 sc cfg scope x tr t s) (nexecute sub2 sc cfg scope x tr t s) := by
@@ -738,32 +740,31 @@ theorem triggerNested_ref (h : SubRef sub1 sub2) (scope : Scope) (x : Ctx) (ev :
       | some order => exact Ref.bind (tnLoop_ref h scope x ev ts _ _ s) (fun _ _ => Ref.rfl)
 
 theorem ten_ref (h : SubRef sub1 sub2) (x : Ctx) (ev : Nat) :
-    ∀ (tree : Forest) (scope : Scope) (res : List (Nat × Bool)) (s : NSt),
-    Ref (ten sub1 sc cfg x ev scope tree res s) (ten sub2 sc cfg x ev scope tree res s) := by
+    ∀ (tree : Forest) (scope : Scope) (res : List (Nat × Bool)) (offered : Bool) (s : NSt),
+    Ref (ten sub1 sc cfg x ev scope tree res offered s) (ten sub2 sc cfg x ev scope tree res offered s) := by
   intro tree
   induction tree with
-  | nil => intro scope res s; unfold ten; exact Ref.rfl
+  | nil => intro scope res offered s; unfold ten; exact Ref.rfl
   | cons key value rest ihv ihr =>
-    intro scope res s
+    intro scope res offered s
     unfold ten
     refine Ref.bind ?_ ?_
     · split
       · exact Ref.rfl
       · cases scope.enter key with
         | none => exact Ref.rfl
-        | some inner => exact Ref.bind (ihv inner [] s) (fun _ _ => Ref.rfl)
+        | some inner => exact Ref.bind (ihv inner [] false s) (fun _ _ => Ref.rfl)
     · intro res1 s1
-      refine Ref.bind ?_ (fun res2 s2 => ihr scope res2 s2)
       split
       · cases alookup ev scope.events with
-        | none => exact Ref.rfl
-        | some ts => exact Ref.bind (triggerNested_ref h scope x ev ts s1) (fun _ _ => Ref.rfl)
-      · exact Ref.rfl
+        | none => exact ihr scope res1 offered s1
+        | some ts => exact Ref.bind (triggerNested_ref h scope x ev ts s1) (fun _ s2 => ihr scope _ true s2)
+      · exact ihr scope res1 offered s1
 
 theorem triggerEventBody_ref (h : SubRef sub1 sub2) (x : Ctx) (ev : Nat) (s : NSt) :
     Ref (triggerEventBody sub1 sc cfg x ev s) (triggerEventBody sub2 sc cfg x ev s) := by
   unfold triggerEventBody
-  exact Ref.bind (ten_ref h x ev _ _ _ s) (fun _ _ => Ref.rfl)
+  exact Ref.bind (ten_ref h x ev _ _ _ _ s) (fun _ _ => Ref.rfl)
 
 theorem nfinalize_ref (h : SubRef sub1 sub2) (x : Ctx) (s : NSt) :
     nfinalize sub1 sc cfg x s = none ∨ nfinalize sub1 sc cfg x s = nfinalize sub2 sc cfg x s := by
